@@ -3,59 +3,72 @@
 
    Log (one JSON object per line), recorded by harness/drv_exportio.c on pages fetched from the decoder:
    Page    rows cols u sz                 the vbi_page the decoder produced (code and size of every cell)
-   Export  gfx skip unrepr cp             output of the text module converted back from the requested encoding with
-                                          iconv (cp = code points; terminal control sequences removed when the
-                                          control option is on, then skip = 1); gfx = the gfx_chr option; unrepr =
-                                          the page's codes the C library cannot represent in that encoding
-   Table   col row w h unrepr cp needed href runs
+   Export  gfx skip unrepr dec cp         output of the text module converted back from the requested encoding with
+                                          iconv (dec = 1: the conversion succeeded, cp = code points; terminal control
+                                          sequences removed when the control option is on, then skip = 1); gfx = the
+                                          gfx_chr option; unrepr = the page's codes the C library cannot represent in
+                                          that encoding
+   Table   col row w h unrepr dec cp needed href runs
                                           vbi_print_page_region(table = TRUE): cp = the complete output converted
                                           back, needed = its size in bytes, href its identity; runs = <<from, to,
                                           ret, guard, h>>: buffer sizes from..to returned ret, modified `guard`
-                                          bytes outside the buffer and delivered data of identity h            *)
+                                          bytes outside the buffer and delivered data of identity h
+
+   Every line is judged; the verdict of a rejected line is printed as <<"TV-BAD", line, what, class>> and counted,
+   AllAccepted fails at the end of the log when any line was rejected. *)
 EXTENDS ExportText, Json, IOUtils, TLC
 
 Log == ndJsonDeserialize(IOEnv.TRACEFILE)
-VARIABLE l
-tvars == <<pg, l>>
+VARIABLES l, nbad
+tvars == <<pg, l, nbad>>
 Ev == Log[l]
 NoPage == [rows |-> 0, cols |-> 0, u |-> <<>>, sz |-> <<>>]
 AsSet(q) == {q[i] : i \in DOMAIN q}
 
-TPage == /\ Ev.a = "Page" /\ Len(Ev.u) = Ev.rows * Ev.cols /\ Len(Ev.sz) = Ev.rows * Ev.cols
-         /\ pg' = [rows |-> Ev.rows, cols |-> Ev.cols, u |-> Ev.u, sz |-> Ev.sz]
-TExport == /\ Ev.a = "Export" /\ pg.rows > 0
-           /\ Ev.cp = ExportText(pg, Ev.gfx, AsSet(Ev.unrepr), Ev.skip = 1)
-           /\ UNCHANGED pg
-RunOK(run, needed, href) ==
-  /\ run[4] = 0                                                   \* nothing outside the stated buffer size
-  /\ run[3] = TableReturn(run[1], needed) /\ run[3] = TableReturn(run[2], needed)
-  /\ run[3] > 0 => run[5] = href
-TTable == /\ Ev.a = "Table" /\ RegionOK(pg, Ev.col, Ev.row, Ev.w, Ev.h)
-          /\ Ev.cp = TableText(pg, Ev.col, Ev.row, Ev.w, Ev.h, AsSet(Ev.unrepr))
-          /\ Ev.needed > 0
-          /\ \A i \in DOMAIN Ev.runs : RunOK(Ev.runs[i], Ev.needed, Ev.href)
-          /\ UNCHANGED pg
-
-TInit == pg = NoPage /\ l = 1
-TNext == l <= Len(Log) /\ l' = l + 1 /\ (TPage \/ TExport \/ TTable)
-TSpec == TInit /\ [][TNext]_tvars
-TraceAccepted == LET n == TLCGet("stats").diameter - 1 IN
-                 IF n = Len(Log) THEN TRUE
-                 ELSE PrintT(<<"TV-REJECT", n + 1, Len(Log)>>) /\ FALSE
-
-(* explanation of a rejected line: the log is <<Page, rejected line>> *)
+\* first position where the delivered text differs from the specified one, and what kind of difference it is
 FirstDiff(a, b) == IF \E i \in 1..Len(a) : i > Len(b) \/ a[i] # b[i]
                    THEN CHOOSE i \in 1..Len(a) : (i > Len(b) \/ a[i] # b[i]) /\ \A j \in 1..(i - 1) : j <= Len(b) /\ a[j] = b[j]
                    ELSE Len(a) + 1
-Explain ==
-  LET p == [rows |-> Log[1].rows, cols |-> Log[1].cols, u |-> Log[1].u, sz |-> Log[1].sz]
-      ev == Log[2]
-      exp == IF ev.a = "Export" THEN ExportText(p, ev.gfx, AsSet(ev.unrepr), ev.skip = 1)
-             ELSE TableText(p, ev.col, ev.row, ev.w, ev.h, AsSet(ev.unrepr))
-      d == FirstDiff(exp, ev.cp)
-      bad == IF ev.a = "Table" THEN {i \in DOMAIN ev.runs : ~RunOK(ev.runs[i], ev.needed, ev.href)} ELSE {}
-  IN PrintT(<<"TV-EXPECT", [textlen |-> Len(exp), gotlen |-> Len(ev.cp), firstdiff |-> d,
-                            expected |-> IF d <= Len(exp) THEN exp[d] ELSE 0 - 1,
-                            got |-> IF d <= Len(ev.cp) THEN ev.cp[d] ELSE 0 - 1,
-                            badruns |-> {ev.runs[i] : i \in bad}]>>)
+Class(exp, got) ==
+  LET d == FirstDiff(exp, got) IN
+  IF d > Len(got) THEN "characters-lost"
+  ELSE IF d > Len(exp) THEN "characters-added"
+  ELSE IF IsGfx(got[d]) THEN "graphics-not-replaced"
+  ELSE IF IsDrcs(got[d]) THEN "drcs-not-replaced"
+  ELSE IF exp[d] = LF \/ got[d] = LF THEN (IF Len(got) < Len(exp) THEN "characters-lost" ELSE "characters-added")
+  ELSE "wrong-character"
+
+ExportVerdict(ev) ==
+  IF ev.dec # 1 THEN <<"export-text", "not-in-requested-encoding">>
+  ELSE IF ExportAccepted(pg, ev.gfx, AsSet(ev.unrepr), ev.skip = 1, ev.cp) THEN <<"ok", "">>
+       ELSE <<"export-text", Class(ExportText(pg, ev.gfx, AsSet(ev.unrepr), ev.skip = 1), ev.cp)>>
+
+RunGuardOK(run) == run[4] = 0                                    \* nothing outside the stated buffer size
+RunRetOK(run, needed) == run[3] = TableReturn(run[1], needed) /\ run[3] = TableReturn(run[2], needed)
+RunDataOK(run, href) == run[3] > 0 => run[5] = href
+TableVerdict(ev) ==
+  IF ~RegionOK(pg, ev.col, ev.row, ev.w, ev.h) THEN <<"table", "malformed">>
+  ELSE IF ev.dec # 1 THEN <<"table-text", "not-in-requested-encoding">>
+  ELSE LET exp == TableText(pg, ev.col, ev.row, ev.w, ev.h, AsSet(ev.unrepr)) IN
+       IF ev.cp # exp THEN <<"table-text", Class(exp, ev.cp)>>
+       ELSE IF ev.needed <= 0 THEN <<"table-size", "failed-with-large-buffer">>
+       ELSE IF \E i \in DOMAIN ev.runs : ~RunGuardOK(ev.runs[i]) THEN <<"table-size", "wrote-beyond-buffer-size">>
+       ELSE IF \E i \in DOMAIN ev.runs : ~RunRetOK(ev.runs[i], ev.needed) THEN <<"table-size", "wrong-return-value">>
+       ELSE IF \E i \in DOMAIN ev.runs : ~RunDataOK(ev.runs[i], ev.href) THEN <<"table-size", "data-depends-on-buffer-size">>
+       ELSE <<"ok", "">>
+
+Judge(v) == /\ IF v[1] = "ok" THEN TRUE ELSE PrintT(<<"TV-BAD", l, v[1], v[2]>>)
+            /\ nbad' = nbad + (IF v[1] = "ok" THEN 0 ELSE 1)
+TPage == /\ Ev.a = "Page" /\ Len(Ev.u) = Ev.rows * Ev.cols /\ Len(Ev.sz) = Ev.rows * Ev.cols
+         /\ pg' = [rows |-> Ev.rows, cols |-> Ev.cols, u |-> Ev.u, sz |-> Ev.sz] /\ UNCHANGED nbad
+TExport == Ev.a = "Export" /\ pg.rows > 0 /\ Judge(ExportVerdict(Ev)) /\ UNCHANGED pg
+TTable == Ev.a = "Table" /\ pg.rows > 0 /\ Judge(TableVerdict(Ev)) /\ UNCHANGED pg
+
+TInit == pg = NoPage /\ l = 1 /\ nbad = 0
+TNext == l <= Len(Log) /\ l' = l + 1 /\ (TPage \/ TExport \/ TTable)
+TSpec == TInit /\ [][TNext]_tvars
+AllAccepted == l = Len(Log) + 1 => nbad = 0
+TraceAccepted == LET n == TLCGet("stats").diameter - 1 IN
+                 IF n = Len(Log) THEN TRUE
+                 ELSE PrintT(<<"TV-REJECT", n + 1, Len(Log)>>) /\ FALSE
 =============================================================================
